@@ -268,11 +268,19 @@ def case_solve(ctx, rng, idx):
                     [f / fro(f) * math.sqrt(Pn[k] * rng.uniform(0.05, 1.0))
                      for k, f in enumerate(newF)]), P=Pn)
             elif op == "set_receive_filters(W_H)":
-                s.set_receive_filters(W_H=obj_array(
-                    [rand_c(rng, cur_Ns[k], Nr[k]) for k in range(K)]))
+                Xh = [rand_c(rng, cur_Ns[k], Nr[k]) for k in range(K)]
+                s.set_receive_filters(W_H=obj_array(Xh))
+                ctx.ev("hermitian-pairs", all(np.array_equal(np.asarray(s.W_H[k]), Xh[k]) and
+                                              np.array_equal(np.asarray(s.W[k]), herm(Xh[k]))
+                                              for k in range(K)),
+                       cls=name + ":installed-W_H", detail={**tag, "history": hist + [op]})
             elif op == "set_receive_filters(W)":
-                s.set_receive_filters(W=obj_array(
-                    [rand_c(rng, Nr[k], cur_Ns[k]) for k in range(K)]))
+                Xw = [rand_c(rng, Nr[k], cur_Ns[k]) for k in range(K)]
+                s.set_receive_filters(W=obj_array(Xw))
+                ctx.ev("hermitian-pairs", all(np.array_equal(np.asarray(s.W[k]), Xw[k]) and
+                                              np.array_equal(np.asarray(s.W_H[k]), herm(Xw[k]))
+                                              for k in range(K)),
+                       cls=name + ":installed-W", detail={**tag, "history": hist + [op]})
             elif op == "randomizeF":
                 s.randomizeF(np.array(cur_Ns), None if rng.random() < 0.5 else
                              10.0 ** rng.uniform(-1, 2, size=K))
